@@ -6,7 +6,7 @@
 //! text, then the reference predicate.
 
 use crate::common::*;
-use crate::deleg::{Ref, RefStrict};
+use crate::deleg::{family_verdict, FamilyVerdict, Ref, RefLenient, RefNoHint, RefStrict, Words};
 use crate::jsonleg::{apply_byte_faults, ByteFault};
 use crate::prng::Rng;
 use crate::values::{self, half_ulp, next_up_bits, ref_valid_bits, SIGN};
@@ -72,7 +72,11 @@ fn words_list(ws: &[(u64, u64)]) -> String {
 pub fn execute(c: &TomlCase) -> LegReport {
     let mut rep = LegReport::default();
     let bytes = apply_byte_faults(c.base.as_bytes(), &c.faults);
-    for f in &c.faults {
+    for (f, eff) in c.faults.iter().zip(crate::jsonleg::byte_faults_effective(c.base.as_bytes(), &c.faults)) {
+        if !eff {
+            rep.probes.hit("byte_fault_planned_without_effect");
+            continue;
+        }
         rep.faults_fired.hit(match f {
             ByteFault::Truncate { .. } => "toml_bytes_truncate",
             ByteFault::BitFlip { .. } => "toml_bytes_bit_flip",
@@ -100,29 +104,29 @@ pub fn execute(c: &TomlCase) -> LegReport {
             return rep;
         }
     };
-    let oracle = match guarded(|| parse::<Ref>(c.host, &text)) {
-        Ok(o) => o,
-        Err(msg) => {
-            // a panic inside the toml crate on damaged input is the trusted base failing, not twofloat
-            rep.probes.hit("toml_oracle_panicked_skipped");
-            rep.outcome = format!("skipped: toml crate panicked on the oracle run: {msg}");
-            return rep;
-        }
-    };
-    let expect: Result<Vec<(u64, u64)>, String> = match &oracle {
-        Ok(rs) => {
-            let ws: Vec<(u64, u64)> = rs.iter().map(|r| (r.hi.to_bits(), r.lo.to_bits())).collect();
-            match ws.iter().find(|(h, l)| !ref_valid_bits(*h, *l)) {
-                None => Ok(ws),
-                Some((h, l)) => Err(if f64::from_bits(*h).is_finite() && f64::from_bits(*l).is_finite() { "overlap".into() } else { "non-finite".into() }),
-            }
-        }
-        Err(e) => Err(e.clone()),
-    };
-    let unspecified = oracle.is_ok() && !matches!(guarded(|| parse::<RefStrict>(c.host, &text)), Ok(Ok(_)));
-    if unspecified {
-        rep.probes.hit("toml_integer_typed_numbers_unspecified");
+    fn oracle<T: Words + for<'de> Deserialize<'de>>(host: TomlHost, text: &str) -> Result<Result<Vec<(u64, u64)>, String>, String> {
+        guarded(|| parse::<T>(host, text)).map(|r| r.map(|rs| rs.iter().map(|x| x.words()).collect()))
     }
+    let (std_res, strict, lenient, nohint) =
+        match (oracle::<Ref>(c.host, &text), oracle::<RefStrict>(c.host, &text), oracle::<RefLenient>(c.host, &text), oracle::<RefNoHint>(c.host, &text)) {
+            (Ok(a), Ok(b), Ok(c2), Ok(d)) => (a, b, c2, d),
+            _ => {
+                // a panic inside the toml crate on damaged input is the trusted base failing, not twofloat
+                rep.probes.hit("toml_oracle_panicked_skipped");
+                rep.outcome = "skipped: toml crate panicked on an oracle run".into();
+                return rep;
+            }
+        };
+    let verdict = family_verdict(&std_res, &[("f64-only", strict), ("lenient", lenient), ("hint-free", nohint)]);
+    let unspecified = matches!(verdict, FamilyVerdict::Unspecified(_));
+    if unspecified {
+        rep.probes.hit("toml_conforming_readers_disagree_unspecified");
+    }
+    let expect: Result<Vec<(u64, u64)>, String> = match &verdict {
+        FamilyVerdict::Accept(ws) => Ok(ws.clone()),
+        FamilyVerdict::Reject(e) => Err(e.clone()),
+        FamilyVerdict::Unspecified(e) => Err(format!("unspecified: {e}")),
+    };
     let got = match guarded(|| parse::<TwoFloat>(c.host, &text)) {
         Ok(g) => g,
         Err(msg) => {
@@ -202,20 +206,26 @@ pub fn roundtrip(hi: u64, lo: u64, rep: &mut LegReport) {
     let refv = RefSer { hi: f64::from_bits(hi), lo: f64::from_bits(lo) };
     let same = |t: &TwoFloat| t.hi().to_bits() == hi && t.lo().to_bits() == lo;
     // bare
-    let want = toml::to_string(&refv).unwrap_or_default();
-    // trusted-base self-check
-    match toml::from_str::<Ref>(&want) {
-        Ok(r) if r.hi.to_bits() == hi && r.lo.to_bits() == lo => {}
+    // trusted-base self-check (a panic or inexactness inside the toml crate is not twofloat's)
+    let want = match guarded(|| {
+        let want = toml::to_string(&refv).unwrap_or_default();
+        match toml::from_str::<Ref>(&want) {
+            Ok(r) if r.hi.to_bits() == hi && r.lo.to_bits() == lo => Some(want),
+            _ => None,
+        }
+    }) {
+        Ok(Some(w)) => w,
         _ => {
             rep.probes.hit("toml_trusted_base_not_exact_skipped");
             return;
         }
-    }
+    };
+    let want_of = |f: &dyn Fn() -> Result<String, toml::ser::Error>| guarded(|| f().unwrap_or_default()).unwrap_or_default();
     let checks: Vec<(&str, Result<Result<String, toml::ser::Error>, String>, String, TomlHost)> = vec![
         ("bare", guarded(|| toml::to_string(&x)), want.clone(), TomlHost::Bare),
-        ("flatten", guarded(|| toml::to_string(&Flat { id: 7, v: x })), toml::to_string(&Flat { id: 7, v: refv }).unwrap_or_default(), TomlHost::Flatten),
-        ("nested", guarded(|| toml::to_string(&Nested { v: x })), toml::to_string(&Nested { v: refv }).unwrap_or_default(), TomlHost::Nested),
-        ("array", guarded(|| toml::to_string(&Array { v: vec![x, x] })), toml::to_string(&Array { v: vec![refv, refv] }).unwrap_or_default(), TomlHost::Array),
+        ("flatten", guarded(|| toml::to_string(&Flat { id: 7, v: x })), want_of(&|| toml::to_string(&Flat { id: 7, v: refv })), TomlHost::Flatten),
+        ("nested", guarded(|| toml::to_string(&Nested { v: x })), want_of(&|| toml::to_string(&Nested { v: refv })), TomlHost::Nested),
+        ("array", guarded(|| toml::to_string(&Array { v: vec![x, x] })), want_of(&|| toml::to_string(&Array { v: vec![refv, refv] })), TomlHost::Array),
     ];
     for (name, got, want, host) in checks {
         match got {
